@@ -384,6 +384,16 @@ func execC13c1(p *drv.Plan) *Out {
 				out.Violations = append(out.Violations, pv)
 				return out
 			case el > 5*time.Second:
+				// wall-clock under load: only a decoder that is slow twice is slow
+				t1 := time.Now()
+				func() {
+					defer func() { _ = recover() }()
+					_ = d.f(in)
+				}()
+				if time.Since(t1) <= 5*time.Second {
+					out.Probes["c1.slow-sample-noisy"]++
+					continue
+				}
 				out.Violations = append(out.Violations, &drv.Violation{Prop: "C13", Oracle: "C13.decoder-total", Symptom: "hang", Class: d.name, Detail: fmt.Sprintf("%s(%x) took %v", d.name, in, el)})
 				return out
 			case delta > uint64(64*len(in)+1<<20):
